@@ -40,7 +40,7 @@ def join_case(draw, tier):
     rextra = draw(st.lists(st.sampled_from(rnames), max_size=2, unique=True))
     lh = draw(st.permutations(lk + lextra))
     rh = draw(st.permutations(rk + rextra))
-    p = draw(gen.twinned_pool(KEYCELL, 2, 5))
+    p = draw(gen.twinned_pool(KEYCELL, 2, 5, seq_twins=True))
     kc = st.sampled_from(p)
     vc = st.one_of(st.sampled_from(p), st.integers(0, 3))
     ragged = draw(st.booleans())
